@@ -425,6 +425,7 @@ struct Worker {
     task: Box<dyn Fn(String) + Sync + Send + RefUnwindSafe + 'static>,
     sender: Sender<Option<String>>,
     receiver: Receiver<Option<String>>,
+    stop_requested: AtomicBool,
     stopped: AtomicBool,
     stats: WorkerStats,
 }
@@ -439,6 +440,7 @@ impl Worker {
             task: Box::new(task),
             sender: tx,
             receiver: rx,
+            stop_requested: AtomicBool::new(false),
             stopped: AtomicBool::new(false),
             stats: WorkerStats::new(),
         }
@@ -462,8 +464,11 @@ impl Worker {
     }
 
     fn run(&self) {
-        for opt in self.receiver.iter() {
-            if let Some(v) = opt {
+        // Keep going until the poison pill arrives or, if it could not be queued
+        // because the channel was full, until a stop was requested and everything
+        // queued before it has been processed.
+        while !(self.stop_requested.load(Ordering::Acquire) && self.receiver.is_empty()) {
+            if let Ok(Some(v)) = self.receiver.recv() {
                 self.stats.incr_drained();
                 (self.task)(v);
             } else {
@@ -478,6 +483,8 @@ impl Worker {
     }
 
     fn stop(&self) {
+        // Record the request first: a full bounded channel cannot take the pill.
+        self.stop_requested.store(true, Ordering::Release);
         // Send a `None` poison pill value to stop the run loop.
         let _ = self.sender.try_send(None);
     }
